@@ -6,7 +6,8 @@
 From Coq Require Import List NArith ZArith Bool.
 From RecordUpdate Require Import RecordUpdate.
 From WV Require Import Lib.PyBytes Model.Receiver Model.Parser Model.ChanSeq
-  Proof.ReceiverTotal Proof.ParserTotal Proof.ParserTotalChan Proof.ParserTotalLimits.
+  Proof.ReceiverTotal Proof.ParserTotal Proof.ParserTotalChan Proof.ParserTotalLimits
+  Proof.ParserTotalExamples.
 Import ListNotations.
 Local Open Scope N_scope.
 
@@ -102,3 +103,16 @@ Theorem C06_carry_bounded : forall a p, wf_p a p ->
      (body_bytes_received p = 0 \/ body_bytes_received p < Z.of_N (max_request_body_size a))%Z).
 Proof. exact carry_bounded. Qed.
 Print Assumptions C06_carry_bounded.
+
+(* the three boundaries on concrete streams, whole and byte-wise (limit - 1: delivered
+   without error; limit: refused), computed in the model *)
+Theorem C06_boundaries :
+  (errs (adjx 262144 10) [cl_9] = [None] /\ errs (adjx 262144 10) [cl_10] = [Some EBodyTooLarge]) /\
+  (errs (adjx 40 1000) [head_39] = [None] /\ errs (adjx 40 1000) [head_40] = [Some EHeaderTooLarge]) /\
+  (errs (adjx 262144 20) [chunked_19] = [None] /\ errs (adjx 262144 20) [chunked_20] = [Some EBodyTooLarge]).
+Proof.
+  split; [split; [exact (proj1 declared_below) | exact (proj1 declared_at)]|].
+  split; [split; [exact (proj1 head_below) | exact (proj1 head_at)]|].
+  split; [exact (proj1 chunked_below) | exact (proj1 chunked_at)].
+Qed.
+Print Assumptions C06_boundaries.
